@@ -144,3 +144,23 @@ Theorem C13_chains_exist : forall c inst n e u ctl m s,
   fail_chain c inst n e u ctl (kcount inst (pause_key e u ctl) s) (iter_states c inst n e u ctl m s).
 Proof. exact iter_chain. Qed.
 Print Assumptions C13_chains_exist.
+
+(* WHICH COUNT APPLIES, for every configuration: the count configured on the step / timeout itself decides; the workflow default
+   applies exactly where none is configured there (0 = not configured). The step consumer, the timeout poller and the timeout
+   INSERTER all resolve their count this way ([unit_handler], [poll_once]) *)
+From WF Require Import model.EngineBase model.Engine.
+Theorem C13_own_count_beats_the_default : forall c per,
+  (per <> 0 -> resolve_pause c per = per) /\ resolve_pause c 0 = ec_dpause c.
+Proof. intros c per. unfold resolve_pause. split; [intros H; destruct (per =? 0) eqn:E; [apply Z.eqb_eq in E; contradiction|reflexivity]|reflexivity]. Qed.
+Print Assumptions C13_own_count_beats_the_default.
+
+(* the three processes that count failures are handed exactly that resolved count *)
+Theorem C13_counts_handed_to_the_processes : forall c inst st sh tot e,
+  unit_handler c inst (EInserter st) e =
+    step_handler c inst (EInserter st) st (inserter_fn st (ec_tos c) 0)
+                 (resolve_pause c (match find_to c st with Some t => to_pause t | None => 0 end)) e /\
+  (forall sc, find_step c st = Some sc ->
+     unit_handler c inst (EStep st sh tot) e =
+       step_handler c inst (EStep st sh tot) st (invoke c (UFStep st) (sc_beh sc) st) (resolve_pause c (sc_pause sc)) e).
+Proof. intros c inst st sh tot e. split; [reflexivity|]. intros sc H. cbn [unit_handler]. rewrite H. reflexivity. Qed.
+Print Assumptions C13_counts_handed_to_the_processes.
